@@ -23,6 +23,8 @@ const ZERO_TV: libc::timeval = libc::timeval { tv_sec: 0, tv_usec: 0 };
 // constant allocation with a static whose initial bytes are identical, see c16_io.rs)
 static mut KERNEL: [Opt; NFD] = [Opt { rcv: libc::timeval { tv_sec: 0x192, tv_usec: 0x193 }, snd: ZERO_TV }; NFD];
 static mut DEL_EVENT_CALLS: u32 = 0x191;
+static mut OP_TV: Option<libc::timeval> = None; // step harnesses: the timeval of the set operation (drawn up front)
+static mut NARROW: u32 = 0x19e; // 0x19f: any_tv() narrowed (history harnesses)
 
 fn slot(fd: c_int) -> usize {
     if fd == FDS[0] {
@@ -143,7 +145,12 @@ fn c19_conversion_all_timeval() {
 
 fn any_tv() -> libc::timeval {
     // every timeval: negative and out-of-range fields included (the kernel model decides what is accepted)
-    libc::timeval { tv_sec: kani::any(), tv_usec: kani::any() }
+    let tv = libc::timeval { tv_sec: kani::any(), tv_usec: kani::any() };
+    if unsafe { NARROW } == 0x19f {
+        // concrete-history harnesses (thorough tier): |tv_sec| < 2^20, |tv_usec| < 2^21 keeps the SAT query small
+        kani::assume(tv.tv_sec > -(1 << 20) && tv.tv_sec < (1 << 20) && tv.tv_usec > -(1 << 21) && tv.tv_usec < (1 << 21));
+    }
+    tv
 }
 
 /// One operation of the history. kind: 0 set RCVTIMEO, 1 set SNDTIMEO, 2 query recv limit (what hooked
@@ -152,7 +159,10 @@ fn step(kind: u8, fd: c_int) {
     unsafe {
         match kind {
             0 | 1 => {
-                let tv = any_tv();
+                let tv = match OP_TV {
+                    Some(tv) => tv,
+                    None => any_tv(),
+                };
                 let name = if kind == 0 { libc::SO_RCVTIMEO } else { libc::SO_SNDTIMEO };
                 let f: extern "C" fn(c_int, c_int, c_int, *const c_void, libc::socklen_t) -> c_int = k_setsockopt;
                 let r = setsockopt(
@@ -187,6 +197,8 @@ fn history(n: usize) -> ([u8; 4], [bool; 4]) {
     unsafe {
         KERNEL = [Opt { rcv: ZERO_TV, snd: ZERO_TV }; NFD];
         DEL_EVENT_CALLS = 0;
+        NARROW = 0x19f;
+        OP_TV = None;
     }
     let mut kinds = [0u8; 4];
     let mut fds = [false; 4];
@@ -258,19 +270,33 @@ fn inv_holds() -> bool {
     ok
 }
 
-fn arbitrary_valid_state() {
-    // any() order (the native replayer decodes it): per slot rcv.sec, rcv.usec, snd.sec, snd.usec, cached_rcv, cached_snd
+/// Symbolic inputs of a step harness, drawn first and in a fixed order (the native replayer decodes them by position):
+/// slot 0 rcv.sec, rcv.usec, snd.sec, snd.usec, slot 1 the same, cached flags (slot 0 rcv, snd, slot 1 rcv, snd), the slot
+/// the operation addresses, the timeval a set operation passes.
+struct StepInputs {
+    tvs: [[libc::timeval; 2]; NFD],
+    cached: [[bool; 2]; NFD],
+    which: bool,
+    op_tv: libc::timeval,
+}
+
+fn step_inputs() -> StepInputs {
+    let tvs = [[any_kernel_tv(), any_kernel_tv()], [any_kernel_tv(), any_kernel_tv()]];
+    let cached = [[kani::any(), kani::any()], [kani::any(), kani::any()]];
+    let which: bool = kani::any();
+    let op_tv = libc::timeval { tv_sec: kani::any(), tv_usec: kani::any() };
+    StepInputs { tvs, cached, which, op_tv }
+}
+
+fn arbitrary_valid_state(inp: &StepInputs) {
     let mut i = 0;
     while i < NFD {
-        let rcv = any_kernel_tv();
-        let snd = any_kernel_tv();
+        let (rcv, snd) = (inp.tvs[i][0], inp.tvs[i][1]);
         unsafe { KERNEL[i] = Opt { rcv, snd } };
-        let cached_rcv: bool = kani::any();
-        let cached_snd: bool = kani::any();
-        if cached_rcv {
+        if inp.cached[i][0] {
             _ = RECV_TIME_LIMIT.insert(FDS[i], want_limit(&rcv));
         }
-        if cached_snd {
+        if inp.cached[i][1] {
             _ = SEND_TIME_LIMIT.insert(FDS[i], want_limit(&snd));
         }
         i += 1;
@@ -281,14 +307,19 @@ fn arbitrary_valid_state() {
 macro_rules! c19_step {
     ($name:ident, $kind:expr) => {
         #[kani::proof]
-        #[kani::unwind(6)]
+        #[kani::unwind(10)]
         #[kani::stub(crate::net::EventLoops::del_event, s_del_event)]
         #[kani::stub(crate::syscall::unix::get_time_limit, uf_limit)]
         fn $name() {
-            unsafe { UF_USED = 0 };
-            arbitrary_valid_state();
-            let which: bool = kani::any();
+            unsafe {
+                UF_USED = 0;
+                NARROW = 0x19e;
+            }
+            let inp = step_inputs();
+            arbitrary_valid_state(&inp);
+            let which = inp.which;
             let cached_before = RECV_TIME_LIMIT.contains_key(&FDS[0]) || SEND_TIME_LIMIT.contains_key(&FDS[0]);
+            unsafe { OP_TV = Some(inp.op_tv) };
             step($kind, if which { FDS[0] } else { FDS[1] });
             kani::assert(inv_holds(), "after the operation every cached limit equals the socket's current option value");
             kani::cover!(which && cached_before, "the operation hits a socket with a cached limit");
